@@ -337,3 +337,69 @@ pub fn eigvec_cond(a: &Mat, eigs: &[f64]) -> f64 {
     }
     mc_core::oracle::cond2(&v)
 }
+
+fn igcd(a: i128, b: i128) -> i128 {
+    let (mut a, mut b) = (a.abs(), b.abs());
+    while b != 0 {
+        let t = a % b;
+        a = b;
+        b = t;
+    }
+    a
+}
+
+fn primitive(p: &mut Vec<i128>) {
+    while p.first() == Some(&0) {
+        p.remove(0);
+    }
+    let g = p.iter().fold(0i128, |g, x| igcd(g, *x));
+    if g > 1 {
+        p.iter_mut().for_each(|x| *x /= g);
+    }
+}
+
+/// Exact test: does the integer polynomial (descending coefficients) have a multiple root over C,
+/// i.e. is gcd(p, p') non-constant? Primitive pseudo-remainder sequence in i128 (checked arithmetic).
+pub fn has_multiple_root(c: &[i64]) -> bool {
+    let n = c.len() - 1;
+    if n < 2 {
+        return false;
+    }
+    let mut a: Vec<i128> = c.iter().map(|x| *x as i128).collect();
+    let mut b: Vec<i128> = (0..n).map(|j| c[j] as i128 * (n - j) as i128).collect();
+    primitive(&mut a);
+    primitive(&mut b);
+    loop {
+        if b.is_empty() {
+            // a is the gcd
+            return a.len() > 1;
+        }
+        if b.len() == 1 {
+            return false;
+        }
+        // pseudo-remainder of a by b
+        let mut r = a.clone();
+        while r.len() >= b.len() {
+            let lead_r = r[0];
+            let lead_b = b[0];
+            let g = igcd(lead_r, lead_b);
+            let (mr, mb) = (lead_b / g, lead_r / g);
+            for x in r.iter_mut() {
+                *x *= mr;
+            }
+            for (k, y) in b.iter().enumerate() {
+                r[k] -= mb * y;
+            }
+            debug_assert!(r[0] == 0);
+            r.remove(0);
+            // keep numbers small
+            let g2 = r.iter().fold(0i128, |g, x| igcd(g, *x));
+            if g2 > 1 {
+                r.iter_mut().for_each(|x| *x /= g2);
+            }
+        }
+        primitive(&mut r);
+        a = b;
+        b = r;
+    }
+}
